@@ -215,7 +215,7 @@ def plan(tier, seed):
     shards += [('soup', L, k, optmode) for k in range(NSHARDS)]
     shards += [('docs', ndocs // NSHARDS, seed * 1000 + k, optmode) for k in range(NSHARDS)]
     shards += [('optvalues', k) for k in range(4)]
-    shards += [('inputs',)]
+    shards += [('inputs',), ('formatters',)]
     shards += [('pairs', k, 1 if tier == 'quick' else 8) for k in range(NSHARDS)]
     if tier != 'quick':
         shards += [('fuzz', FUZZ_RUNS, seed * 100 + k + 1) for k in range(NSHARDS)]
@@ -228,7 +228,8 @@ def plan(tier, seed):
                        'soup_len': L, 'documents': ndocs},
             'required_classes': ['names:macro', 'names:environment', 'soup', 'doc',
                                  'opt:math_mode=remove', 'opt:fill_text=20',
-                                 'opt:keep_comments=True', 'optvalues', 'history', 'two-names', 'input-files']}
+                                 'opt:keep_comments=True', 'optvalues', 'history', 'two-names', 'input-files',
+                                 'exported-formatters']}
 
 
 def convert(src, opts, res, case):
@@ -382,10 +383,85 @@ def run_inputs(res):
         shutil.rmtree(d, ignore_errors=True)
 
 
+FORMATTER_DOCS = ['\\zzph', 'a \\zzph{x} b', '\\zzphi c', '\\begin{zzphenv} body \\end{zzphenv}',
+                  '$\\zzph$', 'a ~ b', '\\begin{zzmat} a & b \\\\ c & d \\end{zzmat}',
+                  '\\begin{zzmat}\\end{zzmat}', '\\begin{zzeq} x \\zzph \\end{zzeq}', '\\zzin{a}',
+                  '\\zzin', '\\textbf{\\zzph}', '\\begin{zzphenv}', '\\zzsty{Ab1 \\alpha}', '\\zzsty']
+FORMATTER_MARKS = {'\\zzph': 'Z Z P H', '\\zzphi c': 'I N L', 'a ~ b': '~',
+                   '\\begin{zzphenv} body \\end{zzphenv}': 'Z Z P H E N V'}
+
+
+def run_formatters(res):
+    """the formatter callables the package exports for use in text specs (fmt_placeholder_node,
+    placeholder_node_formatter, fmt_equation_environment, fmt_matrix_environment_node,
+    fmt_input_macro, fmt_math_text_style), attached to macro, environment and specials specs of a
+    custom context: still a string for every input and option set, and the documented placeholder
+    text appears"""
+    import warnings
+    from pylatexenc import latex2text as L, macrospec as M
+    from pylatexenc.latexwalker import LatexWalker, get_default_latex_context_db
+    wdb0, tdb0 = get_default_latex_context_db(), L.get_default_latex_context_db()
+    wdb0.freeze()
+    tdb0.freeze()
+    wdb = wdb0.extended_with(
+        category='c07fmt',
+        macros=[M.MacroSpec('zzph', '{'), M.MacroSpec('zzphi', ''), M.MacroSpec('zzin', '{'),
+                M.MacroSpec('zzsty', '{')],
+        environments=[M.EnvironmentSpec('zzphenv', ''), M.EnvironmentSpec('zzmat', ''),
+                      M.EnvironmentSpec('zzeq', '', is_math_mode=True)])
+    tdb = tdb0.extended_with(
+        category='c07fmt',
+        macros=[L.MacroTextSpec('zzph', simplify_repl=L.fmt_placeholder_node),
+                L.MacroTextSpec('zzphi', simplify_repl=L.placeholder_node_formatter('inl', block=False)),
+                L.MacroTextSpec('zzin', simplify_repl=L.fmt_input_macro),
+                L.MacroTextSpec('zzsty', simplify_repl=lambda n, l2tobj: L.fmt_math_text_style(
+                    l2tobj.nodelist_to_text(n.nodeargd.argnlist if n.nodeargd else []), 'bold'))],
+        environments=[L.EnvironmentTextSpec('zzphenv', simplify_repl=L.fmt_placeholder_node),
+                      L.EnvironmentTextSpec('zzmat', simplify_repl=L.fmt_matrix_environment_node),
+                      L.EnvironmentTextSpec('zzeq', simplify_repl=L.fmt_equation_environment)],
+        specials=[L.SpecialsTextSpec('~', simplify_repl=L.fmt_placeholder_node)])
+    for o in pairwise_opts():
+        for src in FORMATTER_DOCS:
+            for tol in (True, False):
+                res.case()
+                case = {'kind': 'formatters', 'src': src, 'opts': o, 'tolerant': tol}
+                try:
+                    with warnings.catch_warnings():
+                        warnings.simplefilter('ignore')
+                        w = LatexWalker(src, latex_context=wdb, tolerant_parsing=tol)
+                        try:
+                            nl, _, _ = w.get_latex_nodes()
+                        except Exception:
+                            if tol:
+                                raise
+                            res.label('formatters:strict-parse-rejects')
+                            continue
+                        with monitor.budget(len(src) + 200):
+                            out = L.LatexNodes2Text(latex_context=tdb, **o).nodelist_to_text(nl)
+                except monitor.NonTermination as e:
+                    res.fail(monitor.nonterm_key(e), 'does not terminate on %r' % src, case)
+                    continue
+                except Exception as e:
+                    res.fail(exc_key(e), exc_detail(e) + ' on %r' % src, case)
+                    continue
+                if not isinstance(out, str):
+                    res.fail('c07:not-a-string', repr(type(out)), case)
+                    continue
+                mark = FORMATTER_MARKS.get(src)
+                if mark and o.get('math_mode') != 'remove' and mark.lower() not in out.lower():
+                    res.fail('c07:formatter:placeholder-text-missing', '%r -> %r lacks %r'
+                             % (src, out, mark), case)
+                res.nontriv((src, repr(sorted(o.items())), tol))
+    res.label('exported-formatters')
+
+
 def run_shard(shard, res):
     kind = shard[0]
     if kind == 'inputs':
         run_inputs(res)
+        return
+    if kind == 'formatters':
+        run_formatters(res)
         return
     if kind == 'optvalues':
         k = shard[1]
@@ -465,6 +541,15 @@ def check_case(case, res):
         return
     if case['kind'] == 'history':
         run_history(case['history'], case['opts'], res)
+        return
+    if case['kind'] == 'formatters':
+        r2 = Result()
+        run_formatters(r2)
+        for key, l in r2.failures.items():
+            for f in l:
+                if f['case'].get('src') == case['src']:
+                    res.fail(key, f['detail'], case)
+        res.case()
         return
     if case['kind'] == 'input':
         r2 = Result()
